@@ -202,6 +202,15 @@ def aggregate(ctx, chk):
         from ..terms import walk
         walk(val, note)
         val = subst(val, owns) if owns else val
+        # the column taken once and masked afterwards (`col = dyp[..., c]; col[mask]`) is `dyp[mask, c]` for the (n, 2) array of the contract
+        colsel = {}
+
+        def note2(t, init=init, colsel=colsel):
+            if isinstance(t, App) and t.fn == "getitem" and len(t.args) == 2 and t.args[0] == init and not isinstance(t.args[1], (Tup, Sym)) \
+                    and isinstance(t.args[1], App) and t.args[1].fn in ("and", "or", "le0", "lt0", "not"):
+                colsel[t] = App("getitem", (DY, Tup([t.args[1], Const(col)])))
+        walk(val, note2)
+        val = subst(val, colsel) if colsel else val
         xj = App("getitem", (X, j))
         inside = conj([cmp0("le", to_poly(sub(App("getitem", (DX, Tup([full, Const(0)]))), xj))), cmp0("le", to_poly(sub(xj, App("getitem", (DX, Tup([full, Const(1)]))))))])
         rect = App(red, (App("getitem", (DY, Tup([inside, Const(col)]))),), [("initial", own)])
